@@ -445,15 +445,62 @@ theorem sound_sub_partial (o₁ o₂ w₁ w₂ r : Value) (hk₁ : o₁.whollyKn
   by_cases ha : (o₁.isMarked || o₂.isMarked) = true <;> by_cases hb : (w₁.isMarked || w₂.isMarked) = true <;>
     simp_all [covers_withMarks_left, covers_withMarks_right]
 
+/-- FALSE as stated since /repo 6d2fa5e (before, the zero exit was a pointer
+comparison that no value but the package value `cty.Zero` itself could take):
+Multiply under the side condition `CornerExactMul` alone.  The corner products of
+`numericRangeArithmetic` are calls of `Value.Multiply` on the BOUNDS; the bounds of
+a dynamically typed operand are unknown numbers, so such a corner is a short circuit
+of its own and now takes the zero exit when the other bound is a zero.  A nullable
+unknown number refined to `[0, 0]` next to a dynamically typed operand therefore
+multiplies to the known `cty.Zero` — although it may stand for a NULL number, and
+`cty.NullVal(cty.DynamicPseudoType).Multiply(cty.NullVal(cty.Number))` is an unknown
+number (the null of the dynamic pseudo-type is taken for `DynamicVal`, see
+`known_in_known_out_counterexample`; with any other receiver a null operand
+panics). -/
+def SoundMulCornerExact : Prop :=
+  ∀ (o₁ o₂ w₁ w₂ r : Value), o₁.whollyKnown = true → o₂.whollyKnown = true →
+    o₁.wfc = true → o₂.wfc = true → w₁.wfc = true → w₂.wfc = true →
+    CoversX w₁ o₁ = true → CoversX w₂ o₂ = true →
+    CornerExactMul w₁.unmark w₂.unmark o₁.unmark o₂.unmark = true →
+    Value.mul o₁ o₂ = .ok r → ∃ r', Value.mul w₁ w₂ = .ok r' ∧ Covers r' r = true
+
+/-- null of the dynamic pseudo-type times null number is an unknown (non-null) number;
+the same receiver times "unknown number in [0, 0], perhaps null" is the known zero. -/
+theorem mul_null_zero_bounds_counterexample :
+    Value.mul ⟨.dyn, .null⟩ ⟨.number, .null⟩ = .ok unkNumNotNull ∧
+    Value.mul ⟨.dyn, .null⟩ ⟨.number, .unk (.num .u (some ⟨Num.ofInt 0, true⟩) (some ⟨Num.ofInt 0, true⟩))⟩ = .ok zeroVal ∧
+    CoversX ⟨.number, .unk (.num .u (some ⟨Num.ofInt 0, true⟩) (some ⟨Num.ofInt 0, true⟩))⟩ ⟨.number, .null⟩ = true ∧
+    Covers zeroVal unkNumNotNull = false ∧
+    CornerExactMul ⟨.dyn, .null⟩ ⟨.number, .unk (.num .u (some ⟨Num.ofInt 0, true⟩) (some ⟨Num.ofInt 0, true⟩))⟩
+      ⟨.dyn, .null⟩ ⟨.number, .null⟩ = true ∧
+    ZeroBoundsNumber ⟨.number, .unk (.num .u (some ⟨Num.ofInt 0, true⟩) (some ⟨Num.ofInt 0, true⟩))⟩ ⟨.number, .null⟩ = false :=
+  ⟨by rfl, by rfl, by decide, by decide, by decide, by decide⟩
+
+theorem soundMulCornerExact_false : ¬ SoundMulCornerExact := by
+  intro h
+  obtain ⟨c1, c2, c3, c4, c5, _⟩ := mul_null_zero_bounds_counterexample
+  obtain ⟨r', h1, h2⟩ := h ⟨.dyn, .null⟩ ⟨.number, .null⟩ ⟨.dyn, .null⟩ _ _
+    (by decide) (by decide) (by decide) (by decide) (by decide) (by decide) (by decide) c3 c5 c1
+  rw [c2] at h1
+  cases h1
+  rw [c4] at h2
+  cases h2
+
 /-- Multiply: sound when both weakened operands have finite bounds on both sides
 and no corner product exceeds the 512 bits cty multiplies at (`CornerExactMul`,
-decidable).  Multiply keeps every bit the product needs, so unlike Add the bounds'
-own precision cannot spoil the result; unbounded sides (corners at ±∞) are not
-covered by this theorem. -/
+decidable), and a weakened operand whose two bounds are zeros stands for a number,
+not for a null (`ZeroBoundsNumber`, decidable; it only bites next to an operand of
+the dynamic pseudo-type, every other call on a null panics).  Multiply keeps every
+bit the product needs, so unlike Add the bounds' own precision cannot spoil the
+result; unbounded sides (corners at ±∞) are not covered by this theorem.  Both the
+zero exit of the call itself and the zero exit of its corner products (/repo
+6d2fa5e) are covered: a known zero, or an unknown confined to `[0, 0]`, times an
+operand that multiplies without a panic is a zero. -/
 theorem sound_mul_partial (o₁ o₂ w₁ w₂ r : Value) (hk₁ : o₁.whollyKnown = true) (hk₂ : o₂.whollyKnown = true)
     (hf₁ : o₁.wfc = true) (hf₂ : o₂.wfc = true) (hg₁ : w₁.wfc = true) (hg₂ : w₂.wfc = true)
     (hc₁ : CoversX w₁ o₁ = true) (hc₂ : CoversX w₂ o₂ = true)
     (hside : CornerExactMul w₁.unmark w₂.unmark o₁.unmark o₂.unmark = true)
+    (hzb₁ : ZeroBoundsNumber w₁.unmark o₁.unmark = true) (hzb₂ : ZeroBoundsNumber w₂.unmark o₂.unmark = true)
     (ho : Value.mul o₁ o₂ = .ok r) : ∃ r', Value.mul w₁ w₂ = .ok r' ∧ Covers r' r = true := by
   unfold Value.mul at ho ⊢
   rw [binMarks_eq] at ho ⊢
@@ -462,10 +509,53 @@ theorem sound_mul_partial (o₁ o₂ w₁ w₂ r : Value) (hk₁ : o₁.whollyKn
     (by rw [whollyKnown_unmark]; exact hk₁) (by rw [whollyKnown_unmark]; exact hk₂)
     (flat_unmark (wfc_flat hf₁)) (flat_unmark (wfc_flat hf₂)) (flat_unmark (wfc_flat hg₁)) (flat_unmark (wfc_flat hg₂))
     (by rw [coversX_unmark_left, coversX_unmark_right]; exact hc₁)
-    (by rw [coversX_unmark_left, coversX_unmark_right]; exact hc₂) hside h0
+    (by rw [coversX_unmark_left, coversX_unmark_right]; exact hc₂) hside hzb₁ hzb₂ h0
   refine ⟨_, by rw [h1]; rfl, ?_⟩
   by_cases ha : (o₁.isMarked || o₂.isMarked) = true <;> by_cases hb : (w₁.isMarked || w₂.isMarked) = true <;>
     simp_all [covers_withMarks_left, covers_withMarks_right]
+
+/-- Without null operands the second side condition is vacuous: `ZeroBoundsNumber`
+holds of every weakening of a number. -/
+theorem zeroBoundsNumber_of_number (w : Value) (x : Num) : ZeroBoundsNumber w (numVal x) = true := by
+  simp [ZeroBoundsNumber, numVal, asNum]
+
+/-- Multiply with a KNOWN ZERO among the weakened operands needs no side condition:
+since /repo 6d2fa5e the short circuit answers `cty.Zero` for every zero operand
+(`RawEquals(Zero)`; it was a pointer comparison with the package value before), and
+a zero times anything that multiplies without a panic is a zero, so the known
+result admits the concrete product — whatever the other operand's bounds are. -/
+theorem sound_mul_zero (o₁ o₂ w₁ w₂ r : Value) (hk₁ : o₁.whollyKnown = true) (hk₂ : o₂.whollyKnown = true)
+    (hf₁ : o₁.wfc = true) (hf₂ : o₂.wfc = true) (hg₁ : w₁.wfc = true) (hg₂ : w₂.wfc = true)
+    (hc₁ : CoversX w₁ o₁ = true) (hc₂ : CoversX w₂ o₂ = true)
+    (hz : (rawEqualsZero w₁.unmark || rawEqualsZero w₂.unmark) = true)
+    (ho : Value.mul o₁ o₂ = .ok r) : ∃ r', Value.mul w₁ w₂ = .ok r' ∧ Covers r' r = true := by
+  unfold Value.mul at ho ⊢
+  rw [binMarks_eq] at ho ⊢
+  obtain ⟨r0, h0, rfl⟩ := res_map_ok ho
+  obtain ⟨r', h1, h2⟩ := mulU_sound_zero o₁.unmark o₂.unmark w₁.unmark w₂.unmark r0
+    (by rw [whollyKnown_unmark]; exact hk₁) (by rw [whollyKnown_unmark]; exact hk₂)
+    (flat_unmark (wfc_flat hf₁)) (flat_unmark (wfc_flat hf₂)) (flat_unmark (wfc_flat hg₁)) (flat_unmark (wfc_flat hg₂))
+    (by rw [coversX_unmark_left, coversX_unmark_right]; exact hc₁)
+    (by rw [coversX_unmark_left, coversX_unmark_right]; exact hc₂) hz h0
+  refine ⟨_, by rw [h1]; rfl, ?_⟩
+  by_cases ha : (o₁.isMarked || o₂.isMarked) = true <;> by_cases hb : (w₁.isMarked || w₂.isMarked) = true <;>
+    simp_all [covers_withMarks_left, covers_withMarks_right]
+
+/-- the zero exit as the code has it: a zero held at 64 bits (`NumberIntVal(0)`, not
+the package value `cty.Zero`) times an unrefined unknown number, times `DynamicVal`
+and times a null of the dynamic pseudo-type is the known `cty.Zero`; so is
+`DynamicVal` times an unknown number confined to `[0, 0]` (regression cases of the
+harness, `c01.go`) -/
+theorem mul_zero_exit_examples :
+    Value.mul (intVal 0) ⟨.number, .unk .unref⟩ = .ok zeroVal ∧
+    Value.mul ⟨.dyn, .unk .unref⟩ (intVal 0) = .ok zeroVal ∧
+    Value.mul (intVal 0) ⟨.dyn, .null⟩ = .ok zeroVal ∧
+    -- through the corner products: `DynamicVal` times an unknown confined to [0, 0]
+    Value.mul ⟨.dyn, .unk .unref⟩ ⟨.number, .unk (.num .u (some ⟨Num.ofInt 0, true⟩) (some ⟨Num.ofInt 0, true⟩))⟩
+      = .ok zeroVal ∧
+    -- but not with a number-typed unknown: the corner −∞ · 0 panics and is caught
+    Value.mul ⟨.number, .unk .unref⟩ ⟨.number, .unk (.num .u (some ⟨Num.ofInt 0, true⟩) (some ⟨Num.ofInt 0, true⟩))⟩
+      = .ok unkNumNotNull := ⟨by rfl, by rfl, by rfl, by rfl, by rfl⟩
 
 /-! ## Non-vacuity -/
 example : Weaken ⟨.number, .n (Num.ofInt 5)⟩ ⟨.number, .unk (.num .f (some ⟨Num.ofInt 5, true⟩) none)⟩ :=
@@ -483,6 +573,12 @@ example : CornerExactAdd ⟨.number, .unk (.num .f (some ⟨Num.ofInt 1, true⟩
 /-- … and of `sound_mul_partial`: unknown in [-3, 5] times unknown in [2, 4], standing for -1 · 3 -/
 example : CornerExactMul ⟨.number, .unk (.num .f (some ⟨Num.ofInt (-3), true⟩) (some ⟨Num.ofInt 5, true⟩))⟩
     ⟨.number, .unk (.num .f (some ⟨Num.ofInt 2, true⟩) (some ⟨Num.ofInt 4, false⟩))⟩ (intVal (-1)) (intVal 3) = true := by decide
+/-- … with its second side condition (an unknown in [0, 0] standing for the zero it must be) -/
+example : ZeroBoundsNumber ⟨.number, .unk (.num .u (some ⟨Num.ofInt 0, true⟩) (some ⟨Num.ofInt 0, true⟩))⟩ (intVal 0) = true ∧
+    zeroBounded ⟨.number, .unk (.num .u (some ⟨Num.ofInt 0, true⟩) (some ⟨Num.ofInt 0, true⟩))⟩ = true := by decide
+/-- … and of `sound_mul_zero`: 0 (at 64 bits) times an unknown number standing for -7 -/
+example : (rawEqualsZero (intVal 0).unmark || rawEqualsZero (⟨.number, .unk .unref⟩ : Value).unmark) = true ∧
+    CoversX ⟨.number, .unk .unref⟩ (intVal (-7)) = true := by decide
 
 end C01
 end CtyModel
